@@ -70,7 +70,13 @@ type Store struct {
 	Inj    *Inject
 	// Perturb, when set, is called at every callback (seeded yields / sleeps).
 	Perturb func(n int64)
-	Sink    *vt.Sink
+	// Sink, when set, receives "qopen" / "qclose" events (querier lifecycle).
+	Sink *vt.Sink
+	// HonourCtx makes every callback that can fail return the context's error once the
+	// context of its querier is done (what a real storage does).
+	HonourCtx bool
+	// IDBase is added to the querier ids of this store (several stores, one event sink).
+	IDBase int64
 
 	cb int64
 	mu sync.Mutex
@@ -115,7 +121,13 @@ func (s *Store) tick(ctx context.Context, kind string, canErr bool) bool {
 	}
 	inj := s.Inj
 	if inj == nil || inj.K != n {
+		if s.HonourCtx && canErr && ctx != nil && ctx.Err() != nil {
+			return true
+		}
 		return false
+	}
+	if inj.Kind == "err" && !canErr {
+		return false // this callback cannot report a failure: nothing is injected
 	}
 	atomic.StoreInt32(&inj.Fired, 1)
 	inj.At = kind
@@ -137,11 +149,23 @@ func (s *Store) tick(ctx context.Context, kind string, canErr bool) bool {
 	return false
 }
 
+// failure is the error a failing callback reports: the injected one, or the context's.
+func (s *Store) failure(ctx context.Context) error {
+	if inj := s.Inj; inj != nil && inj.Kind == "err" && atomic.LoadInt32(&inj.Fired) == 1 {
+		return ErrInjected
+	}
+	if ctx != nil && ctx.Err() != nil {
+		return ctx.Err()
+	}
+	return ErrInjected
+}
+
 func (s *Store) Querier(ctx context.Context, mint, maxt int64) (storage.Querier, error) {
 	if s.tick(ctx, "Querier", true) {
-		return nil, ErrInjected
+		return nil, s.failure(ctx)
 	}
-	id := atomic.AddInt64(&s.qid, 1)
+	id := s.IDBase + atomic.AddInt64(&s.qid, 1)
+	s.Sink.Emit(vt.Ev{"ev": "qopen", "id": id})
 	s.mu.Lock()
 	s.Opened[id]++
 	if atomic.LoadInt32(&s.started) == 0 {
@@ -168,7 +192,9 @@ func (q *querier) LabelNames(...*labels.Matcher) ([]string, storage.Warnings, er
 	return nil, nil, nil
 }
 func (q *querier) Close() error {
-	q.s.tick(q.ctx, "Close", false)
+	// the close is recorded first: a fault injected into Close itself does not undo the call
+	q.s.Sink.Emit(vt.Ev{"ev": "qclose", "id": q.id})
+	defer q.s.tick(q.ctx, "Close", false)
 	q.s.mu.Lock()
 	q.s.Closed[q.id]++
 	if atomic.LoadInt32(&q.s.returned) == 1 {
@@ -226,7 +252,7 @@ func (x *sset) Next() bool {
 		return false
 	}
 	if x.q.s.tick(x.q.ctx, "SetNext", true) {
-		x.err = ErrInjected
+		x.err = x.q.s.failure(x.q.ctx)
 		return false
 	}
 	x.i++
@@ -259,7 +285,7 @@ func (x *it) Next() chunkenc.ValueType {
 		return chunkenc.ValNone
 	}
 	if x.q.s.tick(x.q.ctx, "Next", true) {
-		x.err = ErrInjected
+		x.err = x.q.s.failure(x.q.ctx)
 		return chunkenc.ValNone
 	}
 	if x.i < len(x.d.T) {
@@ -275,7 +301,7 @@ func (x *it) Seek(t int64) chunkenc.ValueType {
 		return chunkenc.ValNone
 	}
 	if x.q.s.tick(x.q.ctx, "Seek", true) {
-		x.err = ErrInjected
+		x.err = x.q.s.failure(x.q.ctx)
 		return chunkenc.ValNone
 	}
 	if x.i < 0 {
